@@ -14,8 +14,10 @@ CFG = dict(
     go_tags="cl",
     rigs=[dict(test="TestC09", timeout_quick=300, timeout_thorough=900),
           dict(test="TestC09Errors", timeout_quick=200, timeout_thorough=400),
+          dict(test="TestC09MuxClose", timeout_quick=200, timeout_thorough=300),
           dict(test="TestC09Storm", timeout_quick=300, timeout_thorough=900)],
-    reason_text={"11": "wedged: the scenario could not be run to its end - a goroutine of the client waits for a lock for ever; every call behind that lock hangs, also after the connection has failed",
+    reason_text={"12": "stuck read loop: the read failure was injected, every stream of the scenario is gone, yet at a quiescent point the multiplexer's read loop is still alive: it never notices the transport closing and every call waiting for a reply waits for ever",
+                 "11": "wedged: the scenario could not be run to its end - a goroutine of the client waits for a lock for ever; every call behind that lock hangs, also after the connection has failed",
                  "1": "the real client's observation differs from every outcome of the Gallina model (Model/Client.v, all orders of internal rules)",
                  "3": "a unary call's result is not what the first delivered envelope carrying its id says",
                  "5": "fabricated success: a call reported a success whose body no delivered envelope with its id carried; or, after the "
@@ -32,7 +34,7 @@ CFG = dict(
          "call in flight x the transport's Read failing with 8 error VALUES (plain, io.EOF, wrapped EOF, a websocket-style EOF text, "
          "io.ErrUnexpectedEOF, context.Canceled, context.DeadlineExceeded, a gRPC status error) after 0..2 response envelopes and no "
          "trailer: every later RecvMsg / Header / Invoke must return a non-EOF error AND the six results must equal those of the model's run of the "
-         "same scenario (reason 1: the model is parametric in the error value, the code must be too); (c) TestC09Storm: retry storms inside a bubble "
+         "same scenario (reason 1: the model is parametric in the error value, the code must be too); the error values also include the protobuf decoder's own error, raw and wrapped (a transport whose decoder fails), as a persistent failure and as one that does not repeat ('-once': the next Read waits like an idle transport; the connection has to be given up at the FIRST failed Read); the transport fails at most 3000 reads in a row, so that a reader that does not stop shows as pending calls instead of a spin; (b') TestC09MuxClose (10 cases): the multiplexer through its own API: read failure and RpcMultiplexer.Close() in the orders fail,close / close,fail / fail,close,close / fail / close,fail,close, with and without calls in flight, then CallUnaryMethod, NewStreamReadWriter, CallUnaryMethod: none pending, none successful; (c) TestC09Storm: retry storms inside a bubble "
          "with real parallelism: 3000 (thorough 3000 x 12 rounds) unary calls and streams in flight, the read fails, every caller "
          "retries once the moment its call fails (the window INSIDE closeError); at quiescence (exact, no timeout) no retry may be "
          "pending and none may have succeeded",
